@@ -426,7 +426,7 @@ def bound_args(prog, t):
     callee is unknown."""
     if t[0] != "call":
         return None
-    f = prog.funcs.get(t[1])
+    f = prog.funcs.get(t[1]) or prog.funcs.get(t[1] + ".__init__")
     if f is None:
         return None
     ps = [p for p in f.params if not p.startswith("*")]
@@ -460,3 +460,54 @@ def base_of(t):
                 return keep[0]
         return x
     return map_term(t, f)
+
+
+def term_strings(t):
+    """all string constants inside a term"""
+    return [x[1] for x in _walk(t) if isinstance(x, tuple) and len(x) == 2
+            and x[0] == "const" and isinstance(x[1], str)]
+
+
+def positional(t):
+    """(sequence term, constant index) of  seq[i]  /  unpacked item i"""
+    if t[0] == "sub" and t[2][0] == "const" and isinstance(t[2][1], int):
+        return t[1], t[2][1]
+    if t[0] == "item" and isinstance(t[2], int):
+        return t[1], t[2]
+    return None
+
+
+def mapped_over(prog, seq):
+    """X when ``seq`` is  list(map(f, X))  or  [g(x, ...) for x in X]  with
+    f / g taking the element as first argument; None otherwise."""
+    if seq[0] == "call" and seq[1] == "builtins.list" and len(seq[2]) == 1:
+        m = seq[2][0]
+        if m[0] == "call" and m[1] == "builtins.map" and len(m[2]) == 2:
+            return m[2][1]
+        return mapped_over(prog, m)
+    if seq[0] == "comp" and seq[1] in ("list", "gen", "tuple") and \
+            len(seq[3]) == 1 and not seq[3][0][2]:
+        x = seq[3][0][1]
+        if any(y == ("elem", x) for y in _walk(seq[2])):
+            return x
+    return None
+
+
+def literal_parts(t):
+    """String literals that are spelled in a path / name expression itself
+    (through / + f-strings, conditionals), not inside calls or elements."""
+    if not isinstance(t, tuple) or not t:
+        return []
+    if t[0] == "const":
+        return [t[1]] if isinstance(t[1], str) else []
+    if t[0] == "bin":
+        return literal_parts(t[2]) + literal_parts(t[3])
+    if t[0] == "fstr":
+        return [y for x in t[1] for y in literal_parts(x)]
+    if t[0] == "ifexp":
+        return literal_parts(t[2]) + literal_parts(t[3])
+    if t[0] == "phi":
+        return [y for x in t[1] for y in literal_parts(x)]
+    if t[0] == "call" and t[1] in ("builtins.str", "pathlib.Path") and t[2]:
+        return literal_parts(t[2][0])
+    return []
